@@ -142,8 +142,8 @@ struct Op { std::string kind; std::vector<std::string> f; };
 extern "C" int sim_main(int argc, char** argv) {
   std::vector<std::vector<Op>> prog;   // per epoch, this rank's ops
   int my = -1;
-  int subcomm = 0;
-  { std::ifstream pre(argv[1]); std::string l; while (std::getline(pre, l)) { std::stringstream ss(l); std::string w, k; long v; ss >> w; if (w == "param") { ss >> k >> v; if (k == "fstate") g_fstate = (int)v; if (k == "subcomm") subcomm = (int)v; } } }
+  int subcomm = 0; long precomm_kb = -1;
+  { std::ifstream pre(argv[1]); std::string l; while (std::getline(pre, l)) { std::stringstream ss(l); std::string w, k; long v; ss >> w; if (w == "param") { ss >> k >> v; if (k == "fstate") g_fstate = (int)v; if (k == "subcomm") subcomm = (int)v; if (k == "precomm") precomm_kb = v; } } }
   MPI_Comm base = MPI_COMM_WORLD;
   if (subcomm) {   // a communicator whose rank order is the reverse of MPI_COMM_WORLD's
     int wr, ws; MPI_Comm_rank(MPI_COMM_WORLD, &wr); MPI_Comm_size(MPI_COMM_WORLD, &ws);
@@ -154,6 +154,18 @@ extern "C" int sim_main(int argc, char** argv) {
   struct other_comm { std::unique_ptr<ygm::comm> c; MPI_Comm mc = MPI_COMM_NULL;
     ~other_comm() { if (c) { hc::ev("Q+"); c.reset(); MPI_Comm_free(&mc); hc::ev("Q-"); } } } oc;
   std::unique_ptr<ygm::comm>& other = oc.c; MPI_Comm& otherc = oc.mc;
+  if (precomm_kb >= 0) {
+    // param precomm <kb>: the second communicator is built FIRST, under another YGM_COMM_BUFFER_SIZE_KB / YGM_COMM_ROUTING (as test
+    // programs that loop over configurations do with setenv); the communicator under test, built afterwards, must use ITS environment
+    const char* kb0 = getenv("YGM_COMM_BUFFER_SIZE_KB"); std::string kbs = kb0 ? kb0 : ""; const char* rt0 = getenv("YGM_COMM_ROUTING"); std::string rts = rt0 ? rt0 : "";
+    setenv("YGM_COMM_BUFFER_SIZE_KB", std::to_string(precomm_kb).c_str(), 1);
+    setenv("YGM_COMM_ROUTING", rts == "NONE" || rts.empty() ? "NLNR" : "NONE", 1);
+    hc::ev("Q+");
+    { int br, bs; MPI_Comm_rank(base, &br); MPI_Comm_size(base, &bs); MPI_Comm_split(base, 0, bs - 1 - br, &otherc); other.reset(new ygm::comm(otherc)); }
+    hc::ev("Q-");
+    if (kb0) setenv("YGM_COMM_BUFFER_SIZE_KB", kbs.c_str(), 1); else unsetenv("YGM_COMM_BUFFER_SIZE_KB");
+    if (rt0) setenv("YGM_COMM_ROUTING", rts.c_str(), 1); else unsetenv("YGM_COMM_ROUTING");
+  }
   ygm::comm world(base);
   g_world = &world; g_rank = world.rank(); g_size = world.size(); my = g_rank;
   hc::ev("ID " + std::to_string(g_rank));
